@@ -168,6 +168,13 @@ class PruneStrahler(_Pruner):
     @staticmethod
     def gen(rng, x):
         # contiguous from the tips, from the top, and NON-contiguous selections (kept nodes end up between removed ones)
+        import navis
+        try:
+            top = int(navis.strahler_index(x.copy()).nodes.strahler_index.max())
+        except Exception:
+            top = 1
+        if top >= 3 and rng.random() < 0.5:
+            return dict(to_prune=[1, top] if rng.random() < 0.7 else [1, 2, top][:: int(rng.choice([1, -1]))] if top > 3 else [top, 1])
         return dict(to_prune=[1, [1, 2], -1, range(1, 3), 2, [1, 3], [3, 1], [2, 4], [1, 2, 4], slice(1, None), 3][int(rng.integers(11))])
 
     @staticmethod
